@@ -176,6 +176,8 @@ def r3_guard(ck, F, d):
         x = alt.a[0] if (alt.k == "agg" and alt.x.get("variant") == "Ok") else None
         if x is not None and x.k == "agg" and x.x.get("variant") in ("Some", "None"):
             continue
+        if alt.k == "agg" and alt.x.get("variant") == "Err":
+            continue  # an explicit error exit carries no entry
         other.append(alt.show()[:90])
     ck.ob(R, f"no-unguarded-exit/{d}", not other, f"every success exit of {D['next']} is Ok(None) or the guarded Ok(Some(entry))" + (f" — other exits: {other}" if other else ""), b)
     for alt, x in somes:
@@ -264,4 +266,5 @@ def r5_mirror(ck, F):
     R = "C04-R5"
     mirror.check_pair(ck, R, F, A("range_iter_next"), A("rev_range_iter_next"), mirror.RANGE)
     mirror.check_pair(ck, R, F, A("range_iter_new"), A("rev_range_iter_new"), mirror.RANGE_TYPE_ONLY)
-    mirror.check_pair(ck, R, F, A("end_contains"), A("start_contains"), mirror.RANGE)
+    # (end_contains / start_contains are decided semantically by R1's table, which is insensitive to
+    #  operand order; a skeleton comparison would alarm on `a <= b` rewritten as `b >= a`)
